@@ -155,6 +155,24 @@ class SymList:
             return self.make_items(node.left) + self.make_items(node.right)
         if isinstance(node, ast.Name) and node.id in self.lists:
             return list(self.lists[node.id])
+        if isinstance(node, ast.Subscript) and isinstance(node.slice, ast.Slice) and node.slice.step is None and isinstance(node.value, ast.Name) \
+                and node.value.id in self.lists and len(self.lists[node.value.id]) == 1 and self.lists[node.value.id][0].kind == "fam" \
+                and self.lists[node.value.id][0].var is not None:
+            # FAMILY[:k] / FAMILY[k:] of a comprehension family over range(start, start + count): the same family, split at k
+            base = self.lists[node.value.id][0]
+            lo = self.intval(node.slice.lower) if node.slice.lower is not None else Poly.const(0)
+            hi = self.intval(node.slice.upper) if node.slice.upper is not None else base.count
+
+            def nonneg(p):
+                return all(c >= 0 for c in p.terms.values())
+            if nonneg(lo) and nonneg(hi - lo) and nonneg(base.count - hi):
+                import copy as _copy
+                it = _copy.copy(base)
+                it.start = base.start + lo
+                it.count = hi - lo
+                it.iter_desc = "%s[%s]" % (base.iter_desc, ast.unparse(node.slice))
+                return [it]
+            raise AnalysisError("slice %s of a family of %s lines not within it" % (ast.unparse(node.slice), base.count.key()))
         if isinstance(node, ast.IfExp):
             d = self.decide(node.test)
             if d is not None:
@@ -524,6 +542,9 @@ class SymList:
             if isinstance(a, ast.Call) and isinstance(a.func, ast.Attribute) and a.func.attr == "join" and a.args \
                     and isinstance(a.args[0], ast.Name) and a.args[0].id in self.lists:
                 self.written = self.lists[a.args[0].id]
+            elif isinstance(a, ast.Call) and isinstance(a.func, ast.Attribute) and a.func.attr == "join" and len(a.args) == 1 \
+                    and not isinstance(a.args[0], ast.Name):
+                self.written = self.make_items(a.args[0])      # the list expression written in place
             return
 
 
